@@ -1,6 +1,6 @@
 (* C16 - decimal.rs: the parser returns exactly the rational a decimal / scientific / fraction
    text spells (sign included), in lowest terms; it never panics. *)
-From Coq Require Import ZArith NArith QArith List Bool Lia.
+From Coq Require Import ZArith NArith QArith Qpower List Bool Lia.
 From NV Require Import Common.Outcome Text.CodecChars Text.CodecChars_proofs Text.IntText Text.IntText_proofs
   Text.Decimal Text.CodecSpec Text.Radix_proofs.
 Import ListNotations.
@@ -423,3 +423,19 @@ Proof.
     eexists. split; [reflexivity|]. split; [|apply Qred_Qred].
     rewrite Qred_correct, Vp, Vq. reflexivity.
 Qed.
+
+(* the spec's 10^e is the standard rational power *)
+Lemma pos_pow_1_l p : (1 ^ p = 1)%positive.
+Proof. apply Pos2Z.inj. rewrite Pos2Z.inj_pow. apply Z.pow_1_l. lia. Qed.
+Lemma pow10_Qpower e : (pow10 e == Qpower (10 # 1) e)%Q.
+Proof.
+  unfold pow10. destruct e as [|p|p].
+  - reflexivity.
+  - cbn [Z.leb Z.compare]. cbv iota. cbn [Qpower]. rewrite Qpower_decomp_positive.
+    unfold inject_Z. rewrite pos_pow_1_l. reflexivity.
+  - cbn [Z.leb Z.compare Z.opp]. cbv iota. cbn [Qpower]. rewrite Qpower_decomp_positive.
+    unfold inject_Z. rewrite pos_pow_1_l. reflexivity.
+Qed.
+Theorem dec_value_scientific : forall d : dec,
+  (dec_value d == inject_Z (dec_mantissa d) * Qpower (10 # 1) (dec_scale d))%Q.
+Proof. intros d. unfold dec_value. rewrite pow10_Qpower. reflexivity. Qed.
